@@ -286,6 +286,8 @@ where
     fn reset_to_prev_iterate(&mut self, variables: &mut Self::V, prev_variables: &Self::V) {
         #[cfg(clarabel_verif)]
         crate::verif_hooks::trace::observe(crate::verif_hooks::trace::Event::Rollback);
+        #[cfg(clarabel_verif)]
+        crate::verif_hooks::term::note_rollback();
         self.cost_primal = self.prev_cost_primal;
         self.cost_dual = self.prev_cost_dual;
         self.res_primal = self.prev_res_primal;
